@@ -342,7 +342,13 @@ def _prepare(case):
     tpl = case["tpl"]
     dbn, fail = build_dbn(tpl)
     if fail and not fail["key"].endswith("state-names"):
-        return None, fail, None
+        if not fail["key"].startswith("initialize_initial_state") or tpl["explicit"]:
+            return None, fail, None
+        # completion of the initial state failed: report that at the end, and run the inference checks on the
+        # same template with all CPDs given explicitly
+        dbn, fail2 = build_dbn(dict(tpl, explicit=True))
+        if fail2 and not fail2["key"].endswith("state-names"):
+            return None, fail2, None
     try:
         inf = DBNInference(dbn)
     except Exception as e:  # noqa
@@ -628,33 +634,42 @@ def _evidence(rng, tpl, T, kind):
     return [[v, t, s] for (v, t), s in sorted(out.items(), key=repr)]
 
 
-def gen_inference(tier, seed):
-    rng = O.mk_rng(seed, "c17inf")
-    n = 0
-    # the healthy core in depth: persistence edges only, evidence on non-interface variables, default state names
-    # (every second template without evidence also with named states)
-    for k in range(40 if tier == "quick" else 160):
+def gen_inference(tier, seed, named=False):
+    """the healthy core: persistence edges only, every variable has an intra-slice edge, evidence on non-interface variables or none."""
+    rng = O.mk_rng(seed, "c17inf", named)
+    total = (120 if tier == "quick" else 300) if not named else (12 if tier == "quick" else 30)
+    for k in range(total):
         nvars = rng.choice((2, 3, 3))
         evk = ("plain", "plain", "none")[k % 3]
-        tpl = make_template(rng, nvars, rng.choice((1, 2)), False, named=(evk == "none" and k % 2 == 0), explicit=(k % 4 < 3), zeros=(k % 4 == 0),
+        tpl = make_template(rng, nvars, rng.choice((1, 2)), False, named=named, explicit=(k % 4 < 3) if not named else True, zeros=(k % 4 == 0),
                             style=("str", "mixed")[k % 2])
         T = rng.choice((1, 2, 3, 3))
         yield {"tpl": tpl, "T": T, "evidence": _evidence(rng, tpl, T, evk)}
-    # all input classes
-    for rep in range(1 if tier == "quick" else 3):
-        for nvars in (1, 2, 3):
-            for n_iface in (1, 2):
-                if n_iface > nvars:
-                    continue
-                for cross in (False, True):
-                    if cross and nvars == 1:
+
+
+def gen_inference_named(tier, seed):
+    return gen_inference(tier, seed, True)
+
+
+def gen_inference_classes(tier, seed):
+    """the other input classes, interleaved: interface evidence, inter-slice edges between different variables,
+    variables without intra-slice edge, named states completed by initialize_initial_state."""
+    rng = O.mk_rng(seed, "c17cls")
+    n = 0
+    for rep in range(1 if tier == "quick" else 2):
+        for evk in ("iface", "none", "plain"):
+            for nvars in (1, 2, 3):
+                for n_iface in (1, 2):
+                    if n_iface > nvars:
                         continue
-                    for evk in ("none", "plain", "iface"):
+                    for cross in (False, True):
+                        if cross and nvars == 1 or (not cross and evk != "iface" and nvars > 1):
+                            continue
                         for named in (False, True):
                             n += 1
                             T = (n % 3) + 1
                             tpl = make_template(rng, nvars, n_iface, cross, named, explicit=(n % 3 != 0), zeros=(n % 5 == 0),
-                                                isolated_ok=(nvars == 1 or n % 7 == 0), style=("str", "mixed")[n % 2])
+                                                isolated_ok=(nvars == 1 or n % 4 == 0), style=("str", "mixed")[n % 2])
                             ev = _evidence(rng, tpl, T, evk)
                             if evk != "none" and not ev:
                                 ev = _evidence(rng, tpl, T, "iface")
@@ -670,21 +685,24 @@ def gen_inference_multi(tier, seed):
         yield {"tpl": tpl, "T": T, "evidence": _evidence(rng, tpl, T, ("plain", "none")[k % 2])}
 
 
-def gen_models(tier, seed):
-    rng = O.mk_rng(seed, "c17model")
+def gen_models(tier, seed, named=False):
+    rng = O.mk_rng(seed, "c17model", named)
     n = 0
-    for rep in range(12 if tier == "quick" else 48):
+    for rep in range((12 if tier == "quick" else 48) if not named else (2 if tier == "quick" else 6)):
         for nvars in (1, 2, 3):
             for cross in (False, True):
-                for named in (False, True):
-                    for explicit in (False, True):
-                        n += 1
-                        cards = None
-                        if n % 3 == 0:
-                            cards = {v: rng.choice((2, 3, 4)) for v in VAR_NAMES[:nvars]}
-                        tpl = make_template(rng, nvars, rng.choice((1, 2)), cross and nvars > 1, named, explicit, cards=cards, zeros=(n % 4 == 0),
-                                            isolated_ok=True, style=("str", "mixed", "perm")[n % 3])
-                        yield {"tpl": tpl, "t_slices": [0, 1, 3][: 2 + n % 2]}
+                for explicit in (False, True, False):
+                    n += 1
+                    cards = None
+                    if n % 3 == 0:
+                        cards = {v: rng.choice((2, 3, 4)) for v in VAR_NAMES[:nvars]}
+                    tpl = make_template(rng, nvars, rng.choice((1, 2)), cross and nvars > 1, named, explicit, cards=cards, zeros=(n % 4 == 0),
+                                        isolated_ok=True, style=("str", "mixed", "perm")[n % 3])
+                    yield {"tpl": tpl, "t_slices": [0, 1, 3][: 2 + n % 2]}
+
+
+def gen_models_named(tier, seed):
+    return gen_models(tier, seed, True)
 
 
 def nontrivial(case):
@@ -695,16 +713,23 @@ def groups(tier):
     fan = 4 if tier == "quick" else 8
     return [
         Group("inference", gen_inference, check_inference, nontrivial, seed_fanout=fan, engine="E3",
-              bound="templates with 1-3 variables per slice, cards in {2,3}, 1-2 interface nodes, persistence-only and cross inter-slice edges, "
-                    "default and named states, T in 1..3; per template one evidence set (none / non-interface / interface variables, several slices); "
-                    "every (variable, slice) asked alone with query|backward_inference (smoothing) and forward_inference (filtering), then all variables "
-                    "of a slice; keys carry the input class (core / named-evidence / interface-evidence / cross-inter); expected values from an independent unroller + exact Fraction elimination"),
+              bound="core templates: 2-3 variables per slice, cards in {2,3}, 1-2 interface nodes with persistence edges (v,t-1)->(v,t), every variable on an "
+                    "intra-slice edge, default state names, T in 1..3, evidence on non-interface variables in 1-3 slices or none; every (variable, slice) asked "
+                    "alone with query|backward_inference (smoothing) and forward_inference (filtering), then all variables of a slice; expected values from "
+                    "an independent unroller + exact Fraction elimination"),
+        Group("inference_named", gen_inference_named, check_inference, nontrivial, seed_fanout=2, engine="E3",
+              bound="12 (30) core templates with named states (str / mixed), evidence by state name"),
+        Group("inference_classes", gen_inference_classes, check_inference, nontrivial, seed_fanout=2, engine="E3",
+              bound="the remaining input classes, 1-3 variables: evidence on interface variables, inter-slice edges between different variables, variables "
+                    "without intra-slice edge, named states, slice-1 CPDs left to initialize_initial_state; keys carry the class"),
         Group("inference_multi", gen_inference_multi, check_inference_multi, nontrivial, seed_fanout=2, engine="E3",
-              bound="12 (48) core templates (persistence edges, default states, evidence on non-interface variables or none): requests naming "
-                    "variables of several slices at once, forward_inference and query"),
-        Group("initialize_initial_state", gen_models, check_initialize, nontrivial, seed_fanout=1, engine="E3",
-              bound="templates with 1-3 variables, cards in {2,3,4}, shuffled parent / edge / CPD insertion orders; every CPD after completion compared "
-                    "with the template by named assignment; interface / intra / inter edge accessors; idempotence"),
-        Group("get_constant_bn", gen_models, check_constant_bn, nontrivial, seed_fanout=1, engine="E3",
-              bound="same templates, t_slice in {0,1,3}: edges, CPD tables by named assignment, state names"),
+              bound="12 (48) core templates: requests naming variables of several slices at once, forward_inference and query"),
+        Group("init_state", gen_models, check_initialize, nontrivial, seed_fanout=1, engine="E3",
+              bound="templates with 1-3 variables, cards in {2,3,4}, default state names, shuffled parent / edge / CPD insertion orders, persistence and cross "
+                    "inter-slice edges; every CPD after completion compared with the template by named assignment (n-d values); interface / intra / inter "
+                    "edge accessors; idempotence"),
+        Group("init_state_named", gen_models_named, check_initialize, nontrivial, seed_fanout=1, engine="E3", bound="same with named states"),
+        Group("constant_bn", gen_models, check_constant_bn, nontrivial, seed_fanout=1, engine="E3",
+              bound="same templates (default state names), t_slice in {0,1,3}: edges, CPD tables by named assignment, cardinalities"),
+        Group("constant_bn_named", gen_models_named, check_constant_bn, nontrivial, seed_fanout=1, engine="E3", bound="same with named states"),
     ]
